@@ -159,6 +159,11 @@ theorem runC_noCr (hnc : cfg.create = false) {env : Env} {this fuel : Nat} :
 
 end
 
+/-- the states the exploration can put on its worklist, starting from `cs0` -/
+inductive VisitedC (s : Simp) (o : Oracle) (cfg : Cfg) (codes : List (Nat × List Nat)) (cs0 : CState) : CState → Prop where
+  | start : VisitedC s o cfg codes cs0 cs0
+  | step {cs cs'} : VisitedC s o cfg codes cs0 cs → cs' ∈ (stepC s o cfg codes cs).next → VisitedC s o cfg codes cs0 cs'
+
 /-! ### soundness -/
 
 section
@@ -177,7 +182,8 @@ def GoodEndC (ce : CEnd) : Prop :=
   ce.e.tag = .normal → ∀ h, ce.e.out = .halt h → ∀ I : Interp, I.Std → H I → ∀ f0, RelC I p S w0 cs0 w0 f0 [] →
     Sat I ce.e.st.path →
       ∃ w', Halts p w0 f0 (w', haltWith h (ce.e.data.map (·.eval I))) ∧
-        WRelM I S (wd w0 ce.created ce.nonce) w' (stoOf ce.stores) (evalLogs I ce.logs) (balSem I w0 ce.bal)
+        WRelM I S (wd w0 ce.created ce.nonce) w' (stoOf ce.stores) (evalLogs I ce.logs) (balSem I w0 ce.bal) ∧
+        HRel I p S w' ce.hsto
 
 end
 
@@ -193,7 +199,9 @@ theorem stepC_good (hs : SimpSound s) (hmem : cfg.maxMem + 32 ≤ p.memLimit) (h
     (hcb : ∀ a prog, codeOf codes a = some prog → ∀ b ∈ prog, b < 256)
     (hob : cfg.balances = true → OracleSound o)
     (hH : ∀ I, H I → (cfg.balances = true → BalHyp I cfg w0) ∧ (cfg.sha3 = true → ShaInterp I p cfg))
-    (hch : CreateHyp cfg p S w0) (hnh : cfg.hsto = false) {cs : CState}
+    (hch : CreateHyp cfg p S w0) (hoh : cfg.hsto = true → OracleSound o)
+    (hhs : ∀ I, I.Std → H I → ∀ cs, VisitedC s o cfg codes cs0 cs → Sat I cs.st.path → HstoOK I p s cfg cs)
+    {cs : CState} (hv : VisitedC s o cfg codes cs0 cs)
     (hg : GoodC p S w0 cs0 H cs) :
     (∀ cs' ∈ (stepC s o cfg codes cs).next, GoodC p S w0 cs0 H cs') ∧
     (∀ ce ∈ (stepC s o cfg codes cs).ends, GoodEndC p S w0 cs0 H ce) := by
@@ -203,14 +211,14 @@ theorem stepC_good (hs : SimpSound s) (hmem : cfg.maxMem + 32 ≤ p.memLimit) (h
     have hsat : Sat I cs.st.path := by rw [hp] at hsat'; exact (sat_append.1 hsat').1
     obtain ⟨w, f, kcs, hrel, hback⟩ := hg I hI hHI f0 h0 hsat
     obtain ⟨w', f', kcs', hrel', hb'⟩ :=
-      (stepC_sound (o := o) hs hI hmem hdep hcodes hS hcb (fun hbal => ⟨hob hbal, (hH I hHI).1 hbal⟩) (hH I hHI).2 hch hnh hrel hsat).1 cs' hm
+      (stepC_sound (o := o) hs hI hmem hdep hcodes hS hcb (fun hbal => ⟨hob hbal, (hH I hHI).1 hbal⟩) (hH I hHI).2 hch hoh (hhs I hI hHI cs hv hsat) hrel hsat).1 cs' hm
         hsat'
     exact ⟨w', f', kcs', hrel', fun r hr => hback r (hb' r hr)⟩
   · intro ce hm htag h hout I hI hHI f0 h0 hsat'
     have hsat : Sat I cs.st.path := by rw [← stepC_end_path hm]; exact hsat'
     obtain ⟨w, f, kcs, hrel, hback⟩ := hg I hI hHI f0 h0 hsat
     obtain ⟨w', hrun, hW⟩ := (stepC_sound (o := o) hs hI hmem hdep hcodes hS hcb
-      (fun hbal => ⟨hob hbal, (hH I hHI).1 hbal⟩) (hH I hHI).2 hch hnh hrel hsat).2 ce hm htag h hout
+      (fun hbal => ⟨hob hbal, (hH I hHI).1 hbal⟩) (hH I hHI).2 hch hoh (hhs I hI hHI cs hv hsat) hrel hsat).2 ce hm htag h hout
     exact ⟨w', hback _ hrun, hW⟩
 
 /-- **exploreC_sound.** -/
@@ -219,8 +227,11 @@ theorem exploreC_sound (hs : SimpSound s) (hmem : cfg.maxMem + 32 ≤ p.memLimit
     (hcb : ∀ a prog, codeOf codes a = some prog → ∀ b ∈ prog, b < 256)
     (hob : cfg.balances = true → OracleSound o)
     (hH : ∀ I, H I → (cfg.balances = true → BalHyp I cfg w0) ∧ (cfg.sha3 = true → ShaInterp I p cfg))
-    (hch : CreateHyp cfg p S w0) (hnh : cfg.hsto = false) (fuel : Nat) : ∀ (steps : Nat) (wl : List CState) (acc : ResultC),
-    (∀ cs ∈ wl, GoodC p S w0 cs0 H cs) → (∀ ce ∈ acc.ends, GoodEndC p S w0 cs0 H ce) →
+    (hch : CreateHyp cfg p S w0) (hoh : cfg.hsto = true → OracleSound o)
+    (hhs : ∀ I, I.Std → H I → ∀ cs, VisitedC s o cfg codes cs0 cs → Sat I cs.st.path → HstoOK I p s cfg cs)
+    (fuel : Nat) : ∀ (steps : Nat) (wl : List CState) (acc : ResultC),
+    (∀ cs ∈ wl, GoodC p S w0 cs0 H cs ∧ VisitedC s o cfg codes cs0 cs) →
+    (∀ ce ∈ acc.ends, GoodEndC p S w0 cs0 H ce) →
     ∀ ce ∈ (exploreC s o cfg codes fuel steps wl acc).ends, GoodEndC p S w0 cs0 H ce := by
   induction fuel with
   | zero =>
@@ -236,11 +247,12 @@ theorem exploreC_sound (hs : SimpSound s) (hmem : cfg.maxMem + 32 ≤ p.memLimit
       rw [exploreC_succ]
       split
       · exact ih _ _ _ (fun x hx => hwl x (List.mem_cons_of_mem _ hx)) hacc
-      · obtain ⟨hn, he⟩ := stepC_good (o := o) hs hmem hdep hcodes hS hcb hob hH hch hnh (hwl cs (List.mem_cons_self ..))
+      · obtain ⟨hg, hv⟩ := hwl cs (List.mem_cons_self ..)
+        obtain ⟨hn, he⟩ := stepC_good (o := o) hs hmem hdep hcodes hS hcb hob hH hch hoh hhs hv hg
         refine ih _ _ _ ?_ ?_
         · intro x hx
           rcases List.mem_append.1 hx with hx | hx
-          · exact hn x (List.mem_reverse.1 hx)
+          · exact ⟨hn x (List.mem_reverse.1 hx), .step hv (List.mem_reverse.1 hx)⟩
           · exact hwl x (List.mem_cons_of_mem _ hx)
         · intro e hm
           rcases List.mem_append.1 hm with hm | hm
@@ -250,11 +262,6 @@ theorem exploreC_sound (hs : SimpSound s) (hmem : cfg.maxMem + 32 ≤ p.memLimit
 end
 
 /-! ### completeness -/
-
-/-- the states the exploration can put on its worklist, starting from `cs0` -/
-inductive VisitedC (s : Simp) (o : Oracle) (cfg : Cfg) (codes : List (Nat × List Nat)) (cs0 : CState) : CState → Prop where
-  | start : VisitedC s o cfg codes cs0 cs0
-  | step {cs cs'} : VisitedC s o cfg codes cs0 cs → cs' ∈ (stepC s o cfg codes cs).next → VisitedC s o cfg codes cs0 cs'
 
 /-- the run reports that it did not explore everything -/
 def FlaggedC (res : ResultC) : Prop :=
@@ -366,7 +373,7 @@ theorem relC_init {S : Nat → Prop} {f0 : Evm.Frame} (hR0 : R I env ((codeOf co
     (hz : ∀ a, S a → ∀ slot, Evm.lookupD w0.storage (a, slot) = 0 ∧
       Evm.lookupD w0.transient (a, slot) = 0) :
     RelC I p S w0 (initC env codes this) w0 f0 [] := by
-  refine ⟨hR0, hthis, hS0, hd0, ?_, ?_, ChainWF.nil, CrOK.nil, List.Forall₂.nil⟩
+  refine ⟨hR0, hthis, hS0, hd0, ?_, ?_, ChainWF.nil, CrOK.nil, fun a ha slot _ => (hz a ha slot).1, List.Forall₂.nil⟩
   · show ∀ b ∈ (codeOf codes this).getD [], b < 256
     cases hc : codeOf codes this with
     | none => intro b hb; simp at hb
